@@ -475,16 +475,21 @@ func (vm *VM) Step(sc *SimConfig) (string, error) {
 		vm.wait_proc = vm.wait_proc - 1
 	}
 
+	// The processors answer in any order: keep their reports and emit them by processor number
+	procResults := make([]string, len(vm.Processors))
 	for {
 		i := <-vm.recv_chan
 		proc_result := <-vm.result_chans[i]
-		if proc_result != "" {
-			result += "\tProc: " + strconv.Itoa(i) + "\n"
-			result += proc_result
-		}
+		procResults[i] = proc_result
 		vm.wait_proc = vm.wait_proc + 1
 		if vm.wait_proc == len(vm.Processors) {
 			break
+		}
+	}
+	for i, proc_result := range procResults {
+		if proc_result != "" {
+			result += "\tProc: " + strconv.Itoa(i) + "\n"
+			result += proc_result
 		}
 	}
 
